@@ -284,6 +284,11 @@ static ares_bool_t ares_addr_equal(const struct ares_addr *addr1,
         return ARES_TRUE;
       }
       break;
+    case AF_UNSPEC:
+      /* No source address is known (the socket functions provide no
+       * getsockname()), the cookie is simply bound to "no address", which
+       * never changes. */
+      return ARES_TRUE;
     default:
       break; /* LCOV_EXCL_LINE */
   }
